@@ -19,7 +19,7 @@ META = dict(
     harness=["c05"],
 )
 
-HEADER = ("From Coq Require Import ZArith QArith List Bool.\nFrom CV Require Import Base.Dy Dash.DashPhase Corr.C05.\n"
+HEADER = ("From Coq Require Import ZArith QArith List Bool.\nFrom CV Require Import Base.Dy Dash.DashPhase Split.Cert Corr.C05.\n"
           "Import ListNotations.\nOpen Scope Q_scope.\n")
 
 K1_FLAGS = {1: "tie:dashCanonical", 2: "tie:dashStart", 4: "tie:checkDash(DrawPath decision)",
@@ -33,6 +33,10 @@ K2_FLAGS = {1: "tie:Dash-cuts-vs-model", 2: "prop:cut-positions-differ-from-patt
             64: "oracle-selfcheck(drawn_intervals vs on)", 128: "harness:bad-lengths"}
 K2_PROP = 2 | 4 | 8 | 16 | 32
 K2_TIE = 1 | 64 | 128
+K3_FLAGS = {1: "prop:curved-piece-not-a-subcurve", 2: "prop:curved-pieces-out-of-order", 4: "prop:curved-piece-count-differs",
+            8: "prop:curved-piece-length-differs(enclosure+-1%)", 32: "prop:panic"}
+K3_PROP = 1 | 2 | 4 | 8 | 32
+KNOWN_PANIC = "theta not in elliptic arc range for splitting"   # recorded under C10/C13
 
 
 def run(ctx):
@@ -51,19 +55,25 @@ def run(ctx):
     rows = vlib.coq_eval_shards("c05-%d" % ctx.seed, HEADER, [c["coq"] for c in cases], shard=ctx.n(80, 400))
     flagcount, classes = {}, {}
     prop_fail, tie_fail = [], []
-    nk1 = nk2 = nsub = 0
+    nk1 = nk2 = nsub = nk3 = nk3pieces = 0
     nontrivial = set()
     distinct = set()
     for c, row in zip(cases, rows):
         k1 = c["desc"]["kind"] == "K1"
-        names, pm, tm = (K1_FLAGS, K1_PROP, K1_TIE) if k1 else (K2_FLAGS, K2_PROP, K2_TIE)
+        k3 = c["desc"]["kind"] == "K3"
+        names, pm, tm = (K1_FLAGS, K1_PROP, K1_TIE) if k1 else ((K3_FLAGS, K3_PROP, 0) if k3 else (K2_FLAGS, K2_PROP, K2_TIE))
         key = json.dumps([c["desc"].get("path"), c["desc"]["offset"], c["desc"]["dashes"]])
         distinct.add(key)
         fl = 0
         for k in range(len(row) // 3):
             f, a, b = row[3 * k], row[3 * k + 1], row[3 * k + 2]
             fl |= f
-            if k1:
+            if k3:
+                nk3 += 1
+                nk3pieces += a
+                if a >= 2:
+                    nontrivial.add(key)
+            elif k1:
                 classes[a] = classes.get(a, 0) + 1
                 if a == 3:
                     nontrivial.add(key)
@@ -75,7 +85,7 @@ def run(ctx):
                     classes["k2-joined"] = classes.get("k2-joined", 0) + 1
         if k1:
             nk1 += 1
-        else:
+        elif not k3:
             nk2 += 1
         for b, name in names.items():
             if fl & b:
@@ -121,7 +131,7 @@ def run(ctx):
                                             "Path.SplitAt / Path.Length / Path.Join are not modelled: their effect is judged on Dash's output (K2, straight-line paths only)"]),
         evaluations=len(cases), distinct_nontrivial=len(nontrivial), distinct=len(distinct),
         rule="one evaluation = one (path, offset, dash array) run through the Go code (dashCanonical, dashStart, Context.DrawPath's decision, Path.Dash) and through the Coq model and spec; distinct by (path, offset, dash array); non-trivial: the model makes at least one cut (K1 class 3) or the specification prescribes at least two pieces on some subpath (K2)",
-        k1_cases=nk1, k2_cases=nk2, k2_subpaths=nsub,
+        k1_cases=nk1, k2_cases=nk2, k2_subpaths=nsub, k3_curved_cases=nk3, k3_curved_pieces_certified=nk3pieces,
         traces_validated_against_impl=len(cases), disagreements_checked=len(prop_fail) + len(tie_fail),
         k1_classes={"identity": classes.get(0, 0), "nothing": classes.get(1, 0), "first-element-covers": classes.get(2, 0), "cuts": classes.get(3, 0), "fuel": classes.get(9, 0)},
         k2_closed_subpaths_joined=classes.get("k2-joined", 0),
@@ -131,5 +141,5 @@ def run(ctx):
     )
     return ctx.finish("proof", cov, [
         "dash arrays, offsets and coordinates on the 1/4 mm grid (coarser than Epsilon) so that every Epsilon comparison in the Go code is decided as in the exact model",
-        "curved segments (quadratic/cubic Beziers, arcs) are not covered: SplitAt's arc-length inversion is C09's subject",
+        "curved segments: K3 covers one open quadratic / convex cubic Bezier per case (certified sub-curves; piece lengths vs pattern within enclosure +-1 % of the path length: checked, not proved); arcs, cusps/loops/inflections (C09 known finding) and mixed curved paths are not covered",
         "K2 slack 2^-30 mm on point positions (float rounding of Interpolate/Length)"])
